@@ -8,6 +8,7 @@ import (
 	"fmt"
 	"go/ast"
 	"go/token"
+	"regexp"
 	"strings"
 )
 
@@ -294,7 +295,7 @@ func init() {
 		//     the branch right after NewFileWriterWithName — which has already created the file when the
 		//     header or the name cannot be written — is a fact of its own (removeOnOpenFail)
 		if fd := f.Func("Migrator", "writeV2File"); fd != nil {
-			okLater, nLater := true, 0
+			okLater, nLater, odd := true, 0, false
 			openRemoves, seenOpen := false, false
 			for i, st := range fd.Body.List {
 				if as, ok := st.(*ast.AssignStmt); ok && f.Contains(as, "NewFileWriterWithName(") && i+1 < len(fd.Body.List) {
@@ -310,12 +311,18 @@ func init() {
 					return true
 				}
 				nLater++
+				if f.Str(ifs.Cond) != "err != nil" || ifs.Else != nil {
+					odd = true // an error branch that is taken only sometimes: not a shape the model knows
+				}
 				if len(f.Calls(ifs.Body, "os.Remove")) == 0 {
 					okLater = false
 				}
+				if n := len(ifs.Body.List); n == 0 || !strings.HasPrefix(f.Str(ifs.Body.List[n-1]), "return err") {
+					odd = true
+				}
 				return true
 			})
-			if nLater >= 2 {
+			if nLater >= 2 && !odd {
 				put("removeOnWriteFail", TriOf(okLater), at(fd))
 			}
 			// the writer itself may clean up
@@ -343,9 +350,13 @@ func init() {
 
 		// --- extractKeyFromTreasure: `if model.Key == "" { return "", errors.New(…) }`
 		if fd := f.Func("Migrator", "extractKeyFromTreasure"); fd != nil {
-			t := No
+			// No only when the key is never tested at all; any other test than the recognised one is unknown
+			t := Unknown
+			if !regexp.MustCompile(`(model\.Key\s*(==|!=)|len\(model\.Key\))`).MatchString(f.Str(fd.Body)) {
+				t = No
+			}
 			for _, st := range fd.Body.List {
-				if ifs, ok := st.(*ast.IfStmt); ok && f.Str(ifs.Cond) == `model.Key == ""` && strings.Contains(f.Str(ifs.Body), "return \"\", errors.New") {
+				if ifs, ok := st.(*ast.IfStmt); ok && f.Str(ifs.Cond) == `model.Key == ""` && ifs.Else == nil && strings.Contains(f.Str(ifs.Body), "return \"\", errors.New") {
 					t = Yes
 				}
 			}
@@ -365,7 +376,10 @@ func init() {
 
 		// --- parseV1Segments: `if length == 0 { continue }`
 		if fd := f.Func("Migrator", "parseV1Segments"); fd != nil {
-			t, seenRead := No, false
+			t, seenRead := Unknown, false
+			if !regexp.MustCompile(`length\s*(==|<=|<|!=|>)\s*[01]\b`).MatchString(f.Str(fd.Body)) {
+				t = No // the length is never compared with zero
+			}
 			ast.Inspect(fd.Body, func(x ast.Node) bool {
 				if c, ok := x.(*ast.CallExpr); ok && f.Str(c.Fun) == "reader.ReadUint32" {
 					seenRead = true
